@@ -191,6 +191,15 @@ hypothesis about `sort` from `array_refines_seq_partial`. -/
 theorem quicksort_total (lt : α → α → Bool) (hirr : ∀ x, lt x x = false) (l : List α) :
     (qsortList lt l).isSome = true := qsortList_total lt hirr l
 
+/-- **the C++ recursion of `sort` is at most `log2 n` calls deep** (code after dff9640: recurse into the smaller part,
+loop on the larger one).  `qsortAuxD` is the run function `qsortAux` with a depth counter (first conjunct: same
+result); the nested calls `d` it reaches satisfy `2 ^ d ≤ n` — for every input, whatever the comparison.  Before the
+fix the depth was `n` on a "median killer" permutation and a few hundred thousand ints overflowed the call stack. -/
+theorem quicksort_stack_depth (lt : α → α → Bool) (l : List α) :
+    (qsortAuxD lt (l.length + 1) l 0 l.length).map (·.1) = qsortList lt l ∧
+    ∀ r, qsortAuxD lt (l.length + 1) l 0 l.length = some r → 2 ^ r.2 ≤ max 1 l.length :=
+  ⟨qsortAuxD_fst lt _ l 0 l.length, fun r h => qsortAuxD_depth lt _ l 0 l.length r h⟩
+
 /-- **`sort` sorts** (`quicksort_sorted_perm` of the design): for every strict total order and every sequence the
 transcribed quicksort returns a permutation of the input in non-decreasing order.  Together with
 `array_refines_seq_partial` (whose reference semantics defines the sorted array by this very function) the value
